@@ -715,6 +715,31 @@ func (P *Program) registerStd() {
 		return out
 	})
 	// ---- net: concrete address text only
+	// (*net.TCPAddr).String / Network: exact for the zero address and for concrete IPv4 + port
+	P.reg("(*net.TCPAddr).String", func(fr *frame, args []value) value {
+		in := fr.in
+		p, _ := args[0].(*value)
+		if p == nil {
+			return "<nil>"
+		}
+		st := (*p).(structure)
+		t := in.P.namedType("net.TCPAddr")
+		ip, _ := st[structField(t, "IP")].(sliceVal)
+		port, ok := st[structField(t, "Port")].(*smt.Term)
+		if !ok || !port.IsConst() {
+			return in.freshOpq()
+		}
+		bs := make([]byte, 0, len(ip))
+		for _, b := range ip {
+			bt, ok := b.(*smt.Term)
+			if !ok || !bt.IsConst() {
+				return in.freshOpq()
+			}
+			bs = append(bs, byte(bt.I64()))
+		}
+		return (&net.TCPAddr{IP: net.IP(bs), Port: int(port.I64())}).String()
+	})
+	P.reg("(*net.TCPAddr).Network", func(fr *frame, args []value) value { return "tcp" })
 	P.reg("net.SplitHostPort", func(fr *frame, args []value) value {
 		in := fr.in
 		h, p, err := net.SplitHostPort(in.goStr(args[0], "net.SplitHostPort"))
